@@ -231,7 +231,17 @@ func rc(err error) (string, string) {
 	return "ok", ""
 }
 
-func (r *runner) step(op Op) Obs {
+// step runs one operation; a panic of the implementation is reported as res "died" (the case ends there).
+func (r *runner) step(op Op) (o Obs) {
+	defer func() {
+		if p := recover(); p != nil {
+			o = Obs{Res: "died", Err: fmt.Sprintf("panic: %v", p), Dir: scanDir(r.dir), Counter: readCounter(r.dir)}
+		}
+	}()
+	return r.step1(op)
+}
+
+func (r *runner) step1(op Op) Obs {
 	s := r.s
 	var res, msg string
 	actions := 0
@@ -307,7 +317,12 @@ func runCase(c Case, work string) Out {
 	r := &runner{dir: dir}
 	r.newServer()
 	for _, op := range c.Ops {
-		out.Obs = append(out.Obs, r.step(op))
+		o := r.step(op)
+		out.Obs = append(out.Obs, o)
+		if o.Res == "died" {
+			// locks may be held and the in-memory state is undefined: the history ends here
+			return out
+		}
 	}
 	if c.Keep != "" {
 		hx.QuiesceHoles()
